@@ -48,32 +48,40 @@ Qed.
 
 (* ---------- one record, after the handler ---------- *)
 
+Lemma emit_logs e w :
+  logs_of (emit e w) = if enabled_at (e_min e) (level (w_status w)) then [assemble e w] else [].
+Proof. unfold emit. cbn [assemble r_level]. destruct (enabled_at (e_min e) (level (w_status w))); reflexivity. Qed.
+
 Lemma one_record_after_return_proof : forall (e : env) (next : handler) w tr,
   (forall w' tr', next w tr = (Returned, w', tr') ->
-     logger e next w tr = (Returned, w', tr' ++ [EvLog (assemble e w')]) /\
-     logs_of (snd (logger e next w tr)) = logs_of tr' ++ [assemble e w']) /\
+     logger e next w tr = (Returned, w', tr' ++ emit e w') /\
+     logs_of (snd (logger e next w tr))
+     = logs_of tr' ++ (if enabled_at (e_min e) (level (w_status w')) then [assemble e w'] else [])) /\
   (forall id w' tr', next w tr = (Panicked id, w', tr') ->
      logger e next w tr = (Panicked id, w', tr') /\
      logs_of (snd (logger e next w tr)) = logs_of tr').
 Proof.
   intros e next w tr. split.
   - intros w' tr' H. unfold logger. rewrite H. split; [reflexivity|].
-    cbn [snd]. unfold logs_of. rewrite flat_map_app. cbn. reflexivity.
+    cbn [snd]. unfold logs_of at 1. rewrite flat_map_app. fold (logs_of tr'). fold (logs_of (emit e w')).
+    rewrite emit_logs. reflexivity.
   - intros id w' tr' H. unfold logger. rewrite H. split; reflexivity.
 Qed.
 
-(* exactly one more record iff the wrapped handler returns *)
+(* a handler enabled at every level the Logger can choose: exactly one more record iff the
+   wrapped handler returns *)
 Lemma record_count_proof : forall (e : env) (next : handler) w tr,
+  (forall l, enabled_at (e_min e) l = true) ->
   let '(r, _, tr') := next w tr in
   let n := List.length (logs_of (snd (logger e next w tr))) in
   (r = Returned <-> n = S (List.length (logs_of tr'))) /\
   ((exists id, r = Panicked id) <-> n = List.length (logs_of tr')).
 Proof.
-  intros e next w tr.
+  intros e next w tr Hen.
   destruct (next w tr) as [[r w'] tr'] eqn:H.
   destruct (one_record_after_return_proof e next w tr) as [HR HP].
   destruct r as [|id].
-  - destruct (HR _ _ H) as [_ HL]. rewrite HL, app_length. cbn [List.length].
+  - destruct (HR _ _ H) as [_ HL]. rewrite HL, Hen, app_length. cbn [List.length].
     split; split; intro X.
     + lia.
     + reflexivity.
@@ -177,8 +185,10 @@ Proof.
   intros e next w tr. unfold logger.
   destruct (next w tr) as [[r w'] tr'].
   destruct r as [|id].
-  - repeat split. + unfold steps_of. rewrite flat_map_app. cbn. apply app_nil_r.
-    + eexists; split; reflexivity.
+  - assert (HS : steps_of (emit e w') = []) by (unfold emit; destruct (enabled_at _ _); reflexivity).
+    repeat split.
+    + unfold steps_of in *. rewrite flat_map_app, HS. apply app_nil_r.
+    + exists (emit e w'). split; [reflexivity|exact HS].
   - repeat split. exists []. rewrite app_nil_r. split; reflexivity.
 Qed.
 
@@ -225,21 +235,41 @@ Proof.
     rewrite HD in H. specialize (H eq_refl). lia.
 Qed.
 
+Lemma determined_level_is_level s l : determined_level s = Some l -> level s = l.
+Proof.
+  destruct (level_classes_proof s) as (H2 & H3 & H4 & H5 & _).
+  unfold determined_level. split_ifs; intro X; inversion X; subst.
+  - apply H2; lia.
+  - apply H3; lia.
+  - apply H4; lia.
+  - apply H5; lia.
+Qed.
+
 (* for every wrapped handler that does not itself log: the run of the model passes the
    specification's judgement *)
 Lemma model_meets_spec_proof : forall (e : env) (next : handler),
   (forall r w tr, next w_reset [] = (r, w, tr) -> logs_of tr = []) ->
-  spec_ok (e_kind e) (e_glob e) (e_route e) (e_method e) (e_host e) (e_path e) (e_remote e)
+  spec_ok (e_kind e) (e_glob e) (e_route e) (e_method e) (e_host e) (e_path e) (e_remote e) (e_min e)
           (match next w_reset [] with (Panicked id, _, _) => Some id | _ => None end) 1%nat
           (observe e next) = true.
 Proof.
   intros e next Hq. unfold observe, logger.
   destruct (next w_reset []) as [[r w] tr] eqn:H.
   specialize (Hq _ _ _ eq_refl).
-  destruct r as [|id]; unfold spec_ok; cbn [o_same_response o_panic o_records o_after_handler andb].
-  - unfold logs_of in *. rewrite flat_map_app, Hq. cbn [flat_map app].
-    rewrite rev_app_distr. cbn [rev app List.length Nat.eqb forallb andb].
-    rewrite assemble_record_ok by reflexivity. reflexivity.
+  destruct r as [|id]; unfold spec_ok; cbn [o_same_response o_panic o_records o_after_handler o_status andb].
+  - assert (HL : logs_of (tr ++ emit e w) = logs_of (emit e w)).
+    { unfold logs_of in *. rewrite flat_map_app, Hq. reflexivity. }
+    rewrite HL, emit_logs. unfold emit. cbn [assemble r_level].
+    destruct (enabled_at (e_min e) (level (w_status w))) eqn:EN.
+    + rewrite rev_app_distr. cbn [rev app List.length forallb].
+      rewrite assemble_record_ok by reflexivity. cbn [andb].
+      unfold count_ok. destruct (determined_level (w_status w)) as [l|] eqn:ED.
+      * apply determined_level_is_level in ED. rewrite <- ED, EN. reflexivity.
+      * reflexivity.
+    + cbn [List.length forallb andb]. unfold count_ok.
+      destruct (determined_level (w_status w)) as [l|] eqn:ED.
+      * apply determined_level_is_level in ED. rewrite <- ED, EN. reflexivity.
+      * reflexivity.
   - rewrite Hq, N.eqb_refl. reflexivity.
 Qed.
 
@@ -261,7 +291,7 @@ Proof. reflexivity. Qed.
 
 Lemma loggers_records_proof : forall n (e : env) (next : handler) w tr,
   (forall w' tr', next w tr = (Returned, w', tr') ->
-     loggers n e next w tr = (Returned, w', tr' ++ repeat (EvLog (assemble e w')) n)) /\
+     loggers n e next w tr = (Returned, w', tr' ++ List.concat (repeat (emit e w') n))) /\
   (forall id w' tr', next w tr = (Panicked id, w', tr') ->
      loggers n e next w tr = (Panicked id, w', tr')).
 Proof.
@@ -271,7 +301,8 @@ Proof.
   - intros w' tr' H. rewrite loggers_S.
     unfold logger at 1. destruct (IH e next w tr) as [IHr _]. rewrite (IHr _ _ H).
     rewrite <- app_assoc. f_equal. f_equal.
-    clear. induction n as [|n IHn]; [reflexivity|]. cbn [repeat app]. rewrite IHn. reflexivity.
+    clear. induction n as [|n IHn]; [cbn; rewrite app_nil_r; reflexivity|].
+    cbn [repeat List.concat]. rewrite <- app_assoc, IHn. reflexivity.
   - intros id w' tr' H. rewrite loggers_S.
     unfold logger at 1. destruct (IH e next w tr) as [_ IHp]. rewrite (IHp _ _ _ H). reflexivity.
 Qed.
@@ -329,5 +360,6 @@ Qed.
 (* ---------- non-vacuity ---------- *)
 Definition ex_env : env :=
   {| e_kind := KRoute; e_glob := Some (ResErr (ELeaf 7%N)); e_route := RSet (ResErr (EWrap (EJoin [ELeaf 3%N; ELeaf 0%N])));
-     e_method := S2B "GET"; e_host := S2B "a.b"; e_path := S2B "/x"; e_remote := S2B "192.0.2.1" |}.
+     e_method := S2B "GET"; e_host := S2B "a.b"; e_path := S2B "/x"; e_remote := S2B "192.0.2.1";
+     e_min := Some LevelDebug |}.
 Definition ex_acts := [ASetLocation (S2B "/y"); AWriteHeader 103; AWriteHeader 302; AWriteHeader 500; AWrite 3].
